@@ -140,7 +140,11 @@ Definition m02_init (start : Z) (univ : list addr) : m02 := {| n_prev := obs0 st
 Definition c02_item (univ : list addr) (m : m02) (it : item) : bool * m02 :=
   let '(cl, out, evs, cur) := it in
   let g := ghost_step (n_ghost m) cl out in
-  (c02_checks univ g (obs_view (n_prev m)) (obs_view cur) cl out, {| n_prev := cur; n_ghost := g |}).
+  (c02_checks univ g (obs_view (n_prev m)) (obs_view cur) cl out
+   (* persistence: time passing alone changes nothing but expiring allowances (balances: chk_debit;
+      allowances: chk_change; the flavour's other stored state, e.g. the allow / block flags: here) *)
+   && advance_keeps_extras (n_prev m) cur cl out,
+   {| n_prev := cur; n_ghost := g |}).
 
 Fixpoint c02_from (univ : list addr) (m : m02) (items : list item) (i : N) : N :=
   match items with
@@ -156,7 +160,7 @@ Definition c02_monitor (t : trace) : N := c02_from (t_univ t) (m02_init (t_start
 (* triage helper (not used by the driver): at the first failing call, which clause is false
    1 = unjustified debit, 2 = unjustified allowance change, 3 = allowance above approved-minus-spent or
    alive after the approved live_until, 4 = positive allowance expired / entry dies early,
-   5 = effect without any authorisation *)
+   5 = effect without any authorisation, 6 = a flavour getter changed across an Advance *)
 Definition c02_why_checks (univ : list addr) (g : ghost) (prev cur : view) (cl : call) (out : outcome) : N :=
   if negb (forallb (chk_debit prev cur cl out) univ) then 1%N
   else if negb (forallb (chk_change prev cur cl out) (pairs univ)) then 2%N
@@ -171,7 +175,9 @@ Fixpoint c02_why_from (univ : list addr) (m : m02) (items : list item) (i : N) :
       let '(ok, m') := c02_item univ m it in
       if ok then c02_why_from univ m' r (N.succ i)
       else let '(cl, out, evs, cur) := it in
-           (N.succ i, c02_why_checks univ (ghost_step (n_ghost m) cl out) (obs_view (n_prev m)) (obs_view cur) cl out)
+           (N.succ i,
+            let w := c02_why_checks univ (ghost_step (n_ghost m) cl out) (obs_view (n_prev m)) (obs_view cur) cl out in
+            if N.eqb w 0 then 6%N else w)
   end.
 Definition c02_why (t : trace) : N * N := c02_why_from (t_univ t) (m02_init (t_start t) (t_univ t)) (t_items t) 0%N.
 
